@@ -2,7 +2,10 @@
 """Regenerates the table of section 16 of DESIGN.md (between the two marker lines) from seeded/*/meta.json."""
 import json, glob, re
 rows = []
-for f in sorted(glob.glob('/verif/seeded/*/meta.json')):
+def key(f):
+    a, b = f.split('/')[-2].split('-')
+    return (a, int(b))
+for f in sorted(glob.glob('/verif/seeded/*/meta.json'), key=key):
     d = json.load(open(f))
     c = d['check_result']['caught']
     first = 'caught'
@@ -12,6 +15,8 @@ for f in sorted(glob.glob('/verif/seeded/*/meta.json')):
     elif 'did not terminate' in c or 'infrastructure' in c:
         first = 'check broke (exit 2 / no exit)'
     elif 'first run missed' in c:
+        first = 'MISSED'
+    if d.get('first_run') == 'MISSED':
         first = 'MISSED'
     needs = d['needs_to_manifest'].replace('|', '/').replace('\n', ' ')
     rows.append('| %s | %s | %s | %s | %s |' % (d['id'], needs, first, now, d['check_result']['violation_class']))
